@@ -3,7 +3,10 @@
    live service per (object, service UUID) holds by construction: [objs] and [svcs] are finite
    maps keyed by exactly these.) *)
 From stdpp Require Import gmap list.
+From RecordUpdate Require Import RecordSet.
+Import RecordSetNotations.
 From Aldrin Require Import gen.BrokerConsts Broker.Model Broker.Run Broker.Inv Props.C03_lemmas.
+From Aldrin Require Import Broker.OutKinds Broker.CallProofs Props.C11_lemmas Broker.RegistryProofs.
 Local Open Scope N_scope.
 
 (* cookies identify live objects / services, and the cookie lookups find THE entry *)
@@ -165,3 +168,249 @@ Example C03_hypotheses_satisfiable :
   exists cs, conns ex_s1 !! 1 = Some cs /\ cs_alive cs = true /\ objs ex_s1 !! 5 = None /\
         exists s' out, step ex_s1 (i_ev ex_i1) (i_fresh ex_i1) (i_bserial ex_i1) = Done (s', out).
 Proof. exact ex_hypotheses. Qed.
+
+(* ================================================================ additions: what DESIGN.md listed as
+   "not stated" for C03.  Vocabulary (Broker/RegistryProofs.v):
+   [is_create_service cs x serial oc u i]: x is CreateService, or CreateService2 with a service info
+   from a connection of protocol version >= 17, and i is the info the broker records (version only
+   for CreateService; subscribe_all cleared when the creator is older than version 18).
+   [new_svc fresh oc i]: the service record with cookie fresh, object cookie oc, info i, no event /
+   all-events / service subscribers and no pending calls.
+   [bus_targets s ev]: the owners of the started bus listeners whose scope includes new events and
+   one of whose filters matches ev; [bus_outs s ev]: the EmitBusEvent outputs to the connected ones;
+   [bus_quiet s ev]: every connected target still has its receiver. *)
+
+(* (1) an accepted CreateService / CreateService2: the service IS stored — under (object uuid,
+   service uuid), with the fresh cookie, the object cookie, the given info, empty subscriber sets
+   and no calls; its object is still there, the creator still connected; no other entry of the
+   registry appears or changes its key set otherwise than by removals *)
+Theorem C03_create_service_stored : forall s i c cs x serial oc u inf ou o s' out,
+  reachable s -> legal s i -> i_ev i = Message c x ->
+  conns s !! c = Some cs -> cs_alive cs = true -> is_create_service cs x serial oc u inf ->
+  obj_by_cookie s oc = Some (ou, o) -> o_owner o = c -> svcs s !! (ou, u) = None ->
+  step s (Message c x) (i_fresh i) (i_bserial i) = Done (s', out) ->
+  head out = Some (c, CreateServiceReply serial (CSOk (i_fresh i)), None) /\
+  svcs s' !! (ou, u) = Some (new_svc (i_fresh i) oc inf) /\
+  objs s' !! ou = Some o /\
+  (exists cs', conns s' !! c = Some cs' /\ cs_alive cs' = true) /\
+  objs s' ⊆ objs s /\
+  (forall k, is_Some (svcs s' !! k) -> k = (ou, u) \/ is_Some (svcs s !! k)).
+Proof. exact create_service_stored. Qed.
+Print Assumptions C03_create_service_stored.
+
+(* ... and when no bus listener that has to be told has lost its receiver, the step is exactly:
+   reply, insertion, gauge, bus events — every other entry of objs and svcs is unchanged *)
+Theorem C03_create_service_exact : forall s c cs x serial oc u i ou o f b,
+  conns s !! c = Some cs -> cs_alive cs = true -> is_create_service cs x serial oc u i ->
+  obj_by_cookie s oc = Some (ou, o) -> o_owner o = c -> svcs s !! (ou, u) = None ->
+  bus_quiet s (EvServiceCreated ou oc u f) ->
+  step s (Message c x) f b =
+    Done (s <| svcs ::= <[(ou, u) := new_svc f oc i]> |> <| st; n_svcs ::= N.succ |>,
+          (c, CreateServiceReply serial (CSOk f), None) :: bus_outs s (EvServiceCreated ou oc u f)).
+Proof. exact create_service_exact. Qed.
+Print Assumptions C03_create_service_exact.
+
+(* (3) CreateObject, the same two forms *)
+Theorem C03_object_stored : forall s i c cs serial u s' out,
+  reachable s -> legal s i -> i_ev i = Message c (CreateObject serial u) ->
+  conns s !! c = Some cs -> cs_alive cs = true -> objs s !! u = None ->
+  step s (Message c (CreateObject serial u)) (i_fresh i) (i_bserial i) = Done (s', out) ->
+  head out = Some (c, CreateObjectReply serial (COOk (i_fresh i)), None) /\
+  objs s' !! u = Some {| o_cookie := i_fresh i; o_owner := c |} /\
+  (exists cs', conns s' !! c = Some cs' /\ cs_alive cs' = true) /\
+  (forall u', u' <> u -> forall o', objs s' !! u' = Some o' -> objs s !! u' = Some o') /\
+  (forall k, is_Some (svcs s' !! k) -> is_Some (svcs s !! k)).
+Proof. exact create_object_stored. Qed.
+Print Assumptions C03_object_stored.
+
+Theorem C03_create_object_exact : forall s c cs serial u f b,
+  conns s !! c = Some cs -> cs_alive cs = true -> objs s !! u = None ->
+  bus_quiet s (EvObjectCreated u f) ->
+  step s (Message c (CreateObject serial u)) f b =
+    Done (s <| objs ::= <[u := {| o_cookie := f; o_owner := c |}]> |> <| st; n_objs ::= N.succ |>,
+          (c, CreateObjectReply serial (COOk f), None) :: bus_outs s (EvObjectCreated u f)).
+Proof. exact create_object_exact. Qed.
+Print Assumptions C03_create_object_exact.
+
+(* an object stays live — same cookie, same owner — as long as its owner stays connected and does
+   not send DestroyObject for its cookie: one step, and any legal history *)
+Theorem C03_object_persists : forall s i u o s' out,
+  reachable s -> legal s i -> objs s !! u = Some o ->
+  (forall serial, i_ev i <> Message (o_owner o) (DestroyObject serial (o_cookie o))) ->
+  step s (i_ev i) (i_fresh i) (i_bserial i) = Done (s', out) ->
+  is_Some (conns s' !! o_owner o) ->
+  objs s' !! u = Some o.
+Proof. exact object_persists. Qed.
+Print Assumptions C03_object_persists.
+
+Theorem C03_object_persists_run : forall h s s' os u o,
+  reachable s -> legal_run s h -> run s h = Done (s', os) -> objs s !! u = Some o ->
+  Forall (fun i => forall serial, i_ev i <> Message (o_owner o) (DestroyObject serial (o_cookie o))) h ->
+  alive_along (o_owner o) s h ->
+  objs s' !! u = Some o /\ reachable s'.
+Proof. exact object_persists_run. Qed.
+Print Assumptions C03_object_persists_run.
+
+(* "at most one live object per uuid" on the observable level ([objs] is a finite map keyed by the
+   object uuid, [svcs] by (object uuid, service uuid), so in the state it holds by construction):
+   after an accepted CreateObject for u, over any legal history in which the creator stays connected
+   with a working receiver and does not send DestroyObject for the new cookie, a CreateObject for
+   the same uuid from any connected connection is answered Duplicate and changes nothing *)
+Theorem C03_uniqueness_by_construction : forall h s i1 c1 cs1 serial1 u s1 o1 s2 os c2 cs2 serial2 f b,
+  reachable s -> legal s i1 -> i_ev i1 = Message c1 (CreateObject serial1 u) ->
+  conns s !! c1 = Some cs1 -> cs_alive cs1 = true -> objs s !! u = None ->
+  step s (i_ev i1) (i_fresh i1) (i_bserial i1) = Done (s1, o1) ->
+  legal_run s1 h -> run s1 h = Done (s2, os) ->
+  Forall (fun i => forall serial, i_ev i <> Message c1 (DestroyObject serial (i_fresh i1))) h ->
+  alive_along c1 s1 h ->
+  conns s2 !! c2 = Some cs2 -> cs_alive cs2 = true ->
+  head o1 = Some (c1, CreateObjectReply serial1 (COOk (i_fresh i1)), None) /\
+  step s2 (Message c2 (CreateObject serial2 u)) f b =
+    Done (s2, [(c2, CreateObjectReply serial2 CODuplicate, None)]).
+Proof. exact second_create_duplicate. Qed.
+Print Assumptions C03_uniqueness_by_construction.
+
+(* (2) queries about a live service succeed: exact steps *)
+Theorem C03_query_version_live : forall s c cs serial sc k sv f b,
+  conns s !! c = Some cs -> cs_alive cs = true -> svc_by_cookie s sc = Some (k, sv) ->
+  step s (Message c (QueryServiceVersion serial sc)) f b =
+    Done (s, [(c, QueryServiceVersionReply serial (Some (i_version (s_info sv))), None)]).
+Proof. exact query_version_live. Qed.
+Print Assumptions C03_query_version_live.
+
+Theorem C03_query_info_live : forall s c cs serial sc k sv f b,
+  conns s !! c = Some cs -> cs_alive cs = true -> 17 <= cs_ver cs -> svc_by_cookie s sc = Some (k, sv) ->
+  step s (Message c (QueryServiceInfo serial sc)) f b =
+    Done (s, [(c, QueryServiceInfoReply serial (QIOk (s_info sv)), None)]).
+Proof. exact query_info_live. Qed.
+Print Assumptions C03_query_info_live.
+
+Theorem C03_subscribe_service_live : forall s c cs serial sc k sv f b,
+  conns s !! c = Some cs -> cs_alive cs = true -> 18 <= cs_ver cs -> svc_by_cookie s sc = Some (k, sv) ->
+  step s (Message c (SubscribeService serial sc)) f b =
+    Done (s <| svcs ::= <[k := sv <| s_subs ::= fun x => {[c]} ∪ x |>]> |>,
+          [(c, SubscribeServiceReply serial true, None)]).
+Proof. exact subscribe_service_live. Qed.
+Print Assumptions C03_subscribe_service_live.
+
+Theorem C03_subscribe_service_dead : forall s c cs serial sc f b,
+  conns s !! c = Some cs -> cs_alive cs = true -> 18 <= cs_ver cs -> svc_by_cookie s sc = None ->
+  step s (Message c (SubscribeService serial sc)) f b =
+    Done (s, [(c, SubscribeServiceReply serial false, None)]).
+Proof. exact subscribe_service_dead. Qed.
+Print Assumptions C03_subscribe_service_dead.
+
+(* SubscribeEvent: Ok, subscriber recorded; the owner is told about the first subscriber of that
+   event if its receiver is there ([subscribe_notice]) *)
+Theorem C03_subscribe_event_live : forall s c cs serial sc ev k sv owner f b,
+  conns s !! c = Some cs -> cs_alive cs = true ->
+  svc_by_cookie s sc = Some (k, sv) -> owner_of_svc s k = Some owner ->
+  step s (Message c (SubscribeEvent (Some serial) sc ev)) f b =
+    Done (s <| svcs ::= <[k := sv <| s_events ::= <[ev := default ∅ (s_events sv !! ev) ∪ {[c]}]> |>]> |>,
+          (c, SubscribeEventReply serial true, None) ::
+          (if negb (bool_decide (is_Some (s_events sv !! ev))) && alive s owner
+           then [(owner, SubscribeEvent None sc ev, None)] else [])).
+Proof. exact subscribe_event_live. Qed.
+Print Assumptions C03_subscribe_event_live.
+
+(* CallFunction to a live service whose owner's receiver is there: stored and forwarded
+   (C02_call_forwarded; for an owner whose receiver is gone see C02_call_dead_callee) *)
+Theorem C03_call_live : forall s c cs serial sc fn v f bs k sv callee ccs b nxt,
+  conns s !! c = Some cs -> svc_by_cookie s sc = Some (k, sv) -> owner_of_svc s k = Some callee ->
+  conns s !! callee = Some ccs -> cs_alive ccs = true ->
+  pick_serial s bs = Some (b, nxt) -> cs_calls cs !! serial = None ->
+  step s (Message c (CallFunction serial sc fn v)) f bs =
+    Done (call_state s c cs serial k sv b nxt callee,
+          [(callee, if 19 <=? cs_ver ccs then CallFunction2 b sc fn None v else CallFunction b sc fn v,
+            Some (cs_ver cs))]).
+Proof. exact call_live. Qed.
+Print Assumptions C03_call_live.
+
+(* the iff: answered positively exactly while the cookie names a live service *)
+Theorem C03_query_iff_live : forall s c cs serial sc f b,
+  conns s !! c = Some cs -> cs_alive cs = true ->
+  (exists r, step s (Message c (QueryServiceVersion serial sc)) f b =
+               Done (s, [(c, QueryServiceVersionReply serial r, None)]) /\
+             (is_Some r <-> svc_by_cookie s sc <> None)) /\
+  (17 <= cs_ver cs ->
+   exists r, step s (Message c (QueryServiceInfo serial sc)) f b =
+               Done (s, [(c, QueryServiceInfoReply serial r, None)]) /\
+             (r <> QIInvalid <-> svc_by_cookie s sc <> None)) /\
+  (18 <= cs_ver cs ->
+   exists s' ok, step s (Message c (SubscribeService serial sc)) f b =
+               Done (s', [(c, SubscribeServiceReply serial ok, None)]) /\
+             (ok = true <-> svc_by_cookie s sc <> None)).
+Proof. exact query_iff_live. Qed.
+Print Assumptions C03_query_iff_live.
+
+Theorem C03_subscribe_event_iff_live : forall s c cs serial sc ev f b,
+  reachable s -> conns s !! c = Some cs -> cs_alive cs = true ->
+  exists s' ok rest, step s (Message c (SubscribeEvent (Some serial) sc ev)) f b =
+                       Done (s', (c, SubscribeEventReply serial ok, None) :: rest) /\
+                     (ok = true <-> svc_by_cookie s sc <> None).
+Proof. exact subscribe_event_iff_live. Qed.
+Print Assumptions C03_subscribe_event_iff_live.
+
+(* a call with a caller serial that is not pending, every service owner's receiver in place:
+   InvalidService is output to the caller iff the cookie names no live service; for a live service
+   nothing at all is output to the caller in this step (unless it calls a service it owns itself) *)
+Theorem C03_call_iff_live : forall s i c cs serial sc fn v s' o,
+  reachable s -> legal s i -> i_ev i = Message c (CallFunction serial sc fn v) ->
+  conns s !! c = Some cs -> cs_alive cs = true -> cs_calls cs !! serial = None ->
+  (forall k sv callee ccs, svc_by_cookie s sc = Some (k, sv) -> owner_of_svc s k = Some callee ->
+                           conns s !! callee = Some ccs -> cs_alive ccs = true) ->
+  step s (Message c (CallFunction serial sc fn v)) (i_fresh i) (i_bserial i) = Done (s', o) ->
+  ((c, CallFunctionReply serial CRInvalidService, None) ∈ o <-> svc_by_cookie s sc = None) /\
+  (svc_by_cookie s sc <> None -> outs_to c o = [] \/ exists k, owner_of_svc s k = Some c).
+Proof. exact call_iff_live. Qed.
+Print Assumptions C03_call_iff_live.
+
+(* (4) a disconnect — reported by the connection task (ConnectionShutdown) or requested through
+   the broker handle (ShutdownConnection) — destroys exactly what the connection owned: its
+   objects with all their services are gone, nothing of it is left, objects of other connections
+   that are still connected are untouched *)
+Theorem C03_disconnect_destroys : forall s i c s' out,
+  reachable s -> legal s i -> i_ev i = ConnectionShutdown c \/ i_ev i = ShutdownConnection c ->
+  step s (i_ev i) (i_fresh i) (i_bserial i) = Done (s', out) ->
+  conns s' !! c = None /\
+  (forall u o, objs s !! u = Some o -> o_owner o = c -> objs s' !! u = None /\ forall su, svcs s' !! (u, su) = None) /\
+  (forall u o, objs s' !! u = Some o -> objs s !! u = Some o /\ o_owner o <> c) /\
+  (forall u o, objs s !! u = Some o -> o_owner o <> c -> is_Some (conns s' !! o_owner o) -> objs s' !! u = Some o) /\
+  (forall ou su sv, svcs s' !! (ou, su) = Some sv -> exists o, objs s' !! ou = Some o /\ o_owner o <> c).
+Proof. exact disconnect_destroys. Qed.
+Print Assumptions C03_disconnect_destroys.
+
+(* the history-level form: after any legal history from the initial state, followed by c's
+   disconnect, nothing in the registry belongs to c *)
+Theorem C03_disconnect_run : forall h s1 os1 i c s' out,
+  legal_run init h -> run init h = Done (s1, os1) -> legal s1 i -> i_ev i = ConnectionShutdown c ->
+  step s1 (i_ev i) (i_fresh i) (i_bserial i) = Done (s', out) ->
+  conns s' !! c = None /\
+  (forall u o, objs s' !! u = Some o -> o_owner o <> c) /\
+  (forall ou su sv, svcs s' !! (ou, su) = Some sv -> exists o, objs s' !! ou = Some o /\ o_owner o <> c).
+Proof. exact disconnect_run. Qed.
+Print Assumptions C03_disconnect_run.
+
+(* the hypotheses of C03_create_service_stored / C03_create_service_exact are satisfiable: connection 1
+   (version 20) owns object 5 (cookie 8) and sends CreateService2 for service uuid 6, fresh cookie 9 *)
+Example C03_create_service_sat :
+  let s := rstate rh_obj in
+  reachable s /\ legal s rex_i /\
+  conns s !! 1 = Some {| cs_ver := 20; cs_alive := true; cs_calls := ∅ |} /\
+  is_create_service {| cs_ver := 20; cs_alive := true; cs_calls := ∅ |} (CreateService2 1 8 6 (Some rex_info)) 1 8 6 rex_info /\
+  obj_by_cookie s 8 = Some (5, {| o_cookie := 8; o_owner := 1 |}) /\ svcs s !! (5, 6) = None /\
+  bus_quiet s (EvServiceCreated 5 8 6 9) /\
+  exists s' out, step s (i_ev rex_i) (i_fresh rex_i) (i_bserial rex_i) = Done (s', out).
+Proof. exact create_service_sat. Qed.
+
+(* without bus_quiet "every other entry is unchanged" is false: connection 1 owns object 100 and a
+   started bus listener for all objects and has dropped its receiver; connection 2's CreateObject
+   200 cannot be announced to 1, so 1 is removed and object 100 destroyed within the same step *)
+Example C03_create_cascade_run :
+  let s := rstate rh_cascade in
+  objs s !! 100 = Some {| o_cookie := 1000; o_owner := 1 |} /\
+  exists s', step s (Message 2 (CreateObject 5 200)) 2000 None =
+               Done (s', [(2, CreateObjectReply 5 (COOk 2000), None)]) /\
+             objs s' !! 100 = None /\ conns s' !! 1 = None /\
+             objs s' !! 200 = Some {| o_cookie := 2000; o_owner := 2 |}.
+Proof. exact create_cascade_run. Qed.
